@@ -4,152 +4,103 @@ C13 — diagnostics point at the construct they complain about.
 The position bookkeeping of the parser model (`Parse.PState`: line and byte column of the first
 character of the rest of the input, advanced character by character as nom_locate does) is what
 every span of the tree is computed from; the run compares every span of the model's tree, and every
-parse-error location, with the real parser's.  Proved here: advancing is additive and never moves
-backwards, a span computed by `fromRange` starts exactly at the position of its first character, and
-`adv_position` / `init_position` — the location reached after consuming any text `w` is (line + number
-of line feeds in `w`, byte length of what follows the last line feed of `w`, from 1), whatever `w`
-contains (escapes, comments, non-ASCII text, form feeds) — the facts `span_sound` (open: every node's
-span is the location of the first character of its text) is built on.
+parse-error location, with the real parser's.  Proved (`Proofs/Position.lean`): advancing is additive
+and never moves backwards, a span computed by `fromRange` starts exactly at the position of its first
+character, and `adv_position` / `init_position` — the location reached after consuming any text `w`
+is (line + number of line feeds in `w`, byte length of what follows the last line feed of `w`, from
+1), whatever `w` contains (escapes, comments, non-ASCII text, form feeds).
+
+And `span_sound` itself on the operator ladder (`Proofs/LadderSpans.lean`): `span_sound_ladder` —
+when the printed form of a tree of the fragment (literals, nonterminals, commands, juxtaposition, `|`,
+`||`, `[...]`, postfix `...`, parentheses where precedence needs them) stands anywhere in a file,
+`fallback_expr` returns that tree, and *every* node of it, in preorder, carries the span that starts at
+the line (1 + line feeds before) and byte column (1 + bytes since the last line feed) of the offset of
+the first character of that node's own text — the characters of the file between the node's two
+offsets are the printed form of that node.  Outside the fragment (descriptions, escapes inside
+literals, `{{{ }}}` with `}`, statement heads, blanks and comments between the items) span soundness is
+decided per grammar by the exact comparison of all spans with the real parser.
 -/
-import Complgen.Model.Parse
+import Complgen.Proofs.Position
+import Complgen.Proofs.LadderSpans
 namespace Complgen.Props.C13
 open Complgen Complgen.Parse
 
-theorem adv_add (s : PState) (m n : Nat) : (s.adv m).adv n = s.adv (m + n) := by
-  induction m generalizing s with
-  | zero => simp [PState.adv]
-  | succ m ih =>
-    obtain ⟨rest, l, c⟩ := s
-    cases rest with
-    | nil =>
-      have : ∀ k, PState.adv ⟨[], l, c⟩ k = ⟨[], l, c⟩ := by
-        intro k; cases k <;> simp [PState.adv]
-      simp [this]
-    | cons ch cs =>
-      have h : m + 1 + n = (m + n) + 1 := by omega
-      rw [h]
-      simp only [PState.adv]
-      split <;> exact ih _
+theorem adv_add (s : PState) (m n : Nat) : (s.adv m).adv n = s.adv (m + n) := Pos.adv_add s m n
 
-theorem adv_rest (s : PState) (n : Nat) : (s.adv n).rest = s.rest.drop n := by
-  induction n generalizing s with
-  | zero => simp [PState.adv]
-  | succ n ih =>
-    obtain ⟨rest, l, c⟩ := s
-    cases rest with
-    | nil => simp [PState.adv]
-    | cons ch cs =>
-      simp only [PState.adv]
-      split <;> simp [ih]
+theorem adv_rest (s : PState) (n : Nat) : (s.adv n).rest = s.rest.drop n := Pos.adv_rest s n
 
-theorem adv_line_mono (s : PState) (n : Nat) : s.line ≤ (s.adv n).line := by
-  induction n generalizing s with
-  | zero => simp [PState.adv]
-  | succ n ih =>
-    obtain ⟨rest, l, c⟩ := s
-    cases rest with
-    | nil => simp [PState.adv]
-    | cons ch cs =>
-      simp only [PState.adv]
-      split
-      · exact Nat.le_trans (Nat.le_succ l) (ih ⟨cs, l + 1, 1⟩)
-      · exact ih ⟨cs, l, c + ch.utf8Size⟩
+theorem adv_line_mono (s : PState) (n : Nat) : s.line ≤ (s.adv n).line := Pos.adv_line_mono s n
 
 /-- a span starts at the position of the first character of the construct -/
 theorem fromRange_start (before after : PState) :
-    (fromRange before after).line = before.line ∧ (fromRange before after).cs = before.col := by
-  simp [fromRange]
+    (fromRange before after).line = before.line ∧ (fromRange before after).cs = before.col :=
+  Pos.fromRange_start before after
 
 /-- the location of a parse error is the position where the rest of the input starts -/
-theorem fromMachine_start (s : PState) : (fromMachine s).line = s.line ∧ (fromMachine s).cs = s.col := by
-  simp [fromMachine]
+theorem fromMachine_start (s : PState) : (fromMachine s).line = s.line ∧ (fromMachine s).cs = s.col :=
+  Pos.fromMachine_start s
 
 /-- within one line the column advances by the byte length of what was consumed -/
 theorem adv_col_same_line (s : PState) (w : List Char) (rest : List Char) (hs : s.rest = w ++ rest)
-    (hw : '\n' ∉ w) : (s.adv w.length).line = s.line ∧ (s.adv w.length).col = s.col + bytesLen w := by
-  induction w generalizing s with
-  | nil => simp [PState.adv, bytesLen]
-  | cons c cs ih =>
-    obtain ⟨r, l, col⟩ := s
-    simp only at hs
-    subst hs
-    have hc : c ≠ '\n' := by intro h; apply hw; simp [h]
-    have hcs : '\n' ∉ cs := by intro h; apply hw; simp [h]
-    simp only [List.length_cons, PState.adv, List.cons_append, hc, if_false]
-    have := ih ⟨cs ++ rest, l, col + c.utf8Size⟩ rfl hcs
-    refine ⟨this.1, ?_⟩
-    rw [this.2]
-    simp only [bytesLen, List.foldl_cons, Nat.zero_add]
-    have hf : ∀ (l : List Char) (a : Nat), List.foldl (fun n c => n + c.utf8Size) a l = a + List.foldl (fun n c => n + c.utf8Size) 0 l := by
-      intro l
-      induction l with
-      | nil => intro a; simp
-      | cons x xs ihx => intro a; simp only [List.foldl_cons, Nat.zero_add]; rw [ihx (a + x.utf8Size), ihx x.utf8Size]; omega
-    rw [hf cs c.utf8Size]
-    omega
-
-/-- the characters after the last line feed (the whole list when there is none) -/
-def lastLine : List Char → List Char
-  | [] => []
-  | c :: cs => if '\n' ∈ cs then lastLine cs else if c = '\n' then cs else c :: cs
-
-theorem lastLine_of_not_mem : ∀ l : List Char, '\n' ∉ l → lastLine l = l
-  | [], _ => rfl
-  | c :: cs, h => by
-    have hc : c ≠ '\n' := fun e => h (by simp [e])
-    have hcs : '\n' ∉ cs := fun e => h (by simp [e])
-    simp [lastLine, hcs, hc]
-
-theorem bytesLen_cons (c : Char) (cs : List Char) : bytesLen (c :: cs) = c.utf8Size + bytesLen cs := by
-  have hf : ∀ (l : List Char) (a : Nat), List.foldl (fun n c => n + c.utf8Size) a l = a + List.foldl (fun n c => n + c.utf8Size) 0 l := by
-    intro l
-    induction l with
-    | nil => intro a; simp
-    | cons x xs ihx => intro a; simp only [List.foldl_cons, Nat.zero_add]; rw [ihx (a + x.utf8Size), ihx x.utf8Size]; omega
-  simp only [bytesLen, List.foldl_cons, Nat.zero_add]
-  exact hf cs c.utf8Size
+    (hw : '\n' ∉ w) : (s.adv w.length).line = s.line ∧ (s.adv w.length).col = s.col + bytesLen w :=
+  Pos.adv_col_same_line s w rest hs hw
 
 /-- **Location arithmetic**: after consuming the text `w`, the line is the old line plus the number of
 line feeds in `w`, and the column is the byte length of what follows the last line feed of `w`,
 counted from 1 — or from the old column when `w` has no line feed.  (Everything that precedes a token
 decides its location, and nothing else does.) -/
-theorem adv_position (w : List Char) : ∀ (s : PState) (rest : List Char), s.rest = w ++ rest →
+theorem adv_position (w : List Char) (s : PState) (rest : List Char) (hs : s.rest = w ++ rest) :
     (s.adv w.length).line = s.line + w.count '\n' ∧
-    (s.adv w.length).col = (if '\n' ∈ w then 1 else s.col) + bytesLen (lastLine w) := by
-  induction w with
-  | nil => intro s rest _; simp [PState.adv, bytesLen, lastLine]
-  | cons c cs ih =>
-    intro s rest hs
-    obtain ⟨r, l, col⟩ := s
-    simp only at hs
-    subst hs
-    by_cases hc : c = '\n'
-    · subst hc
-      simp only [List.length_cons, PState.adv, List.cons_append, if_true]
-      have := ih ⟨cs ++ rest, l + 1, 1⟩ rest rfl
-      refine ⟨by rw [this.1]; simp [List.count_cons]; omega, ?_⟩
-      rw [this.2]
-      by_cases hcs : '\n' ∈ cs
-      · simp [hcs, lastLine]
-      · simp [hcs, lastLine, lastLine_of_not_mem cs hcs]
-    · simp only [List.length_cons, PState.adv, List.cons_append, hc, if_false]
-      have := ih ⟨cs ++ rest, l, col + c.utf8Size⟩ rest rfl
-      refine ⟨by rw [this.1]; simp [List.count_cons, hc], ?_⟩
-      rw [this.2]
-      by_cases hcs : '\n' ∈ cs
-      · simp [hcs, lastLine, hc]
-      · have hne : ¬ ('\n' = c) := fun e => hc e.symm
-        simp only [hcs, if_false, lastLine, hc, List.mem_cons, hne, false_or, bytesLen_cons,
-          lastLine_of_not_mem cs hcs]
-        omega
+    (s.adv w.length).col = (if '\n' ∈ w then 1 else s.col) + bytesLen (Pos.lastLine w) :=
+  Pos.adv_position w s rest hs
 
 /-- in particular for a whole file read from its beginning (line 1, column 1) -/
 theorem init_position (t w rest : List Char) (ht : t = w ++ rest) :
     ((PState.init t).adv w.length).line = 1 + w.count '\n' ∧
-    ((PState.init t).adv w.length).col = 1 + bytesLen (lastLine w) := by
-  have := adv_position w (PState.init t) rest (by simp [PState.init, ht])
-  refine ⟨this.1, ?_⟩
-  rw [this.2]
-  by_cases h : '\n' ∈ w <;> simp [h, PState.init]
+    ((PState.init t).adv w.length).col = 1 + bytesLen (Pos.lastLine w) :=
+  Pos.init_position t w rest ht
+
+/-- **Every span of the ladder points at its construct** (relative form): the tree `fallback_expr`
+returns for the printed form of a tree of the fragment carries, at every node, the span of exactly
+the text printed for that node (`Placed`: it starts at the state reached by consuming what was
+printed before the node's first character — not counting a parenthesis the context forced around
+it — and ends after its last character). -/
+theorem span_sound_ladder_placed (e : Expr) (hnf : NF e) (rest : List Char) (hrest : Follows rest) (s : PState)
+    (hs : s.rest = pp 0 e ++ rest) (fuel : Nat) (hfuel : fuelNeeded e ≤ fuel) :
+    ∃ e', fallback fuel s = some (s.adv (pp 0 e).length, e') ∧ Placed 0 s e e' :=
+  fallback_spans e hnf rest hrest s hs fuel hfuel
+
+/-- the root of a placed tree starts where its text starts -/
+theorem placed_root_start {s : PState} {e e' : Expr} (h : Placed 0 s e e') :
+    e'.span.line = s.line ∧ e'.span.cs = s.col := h.span_top_start
+
+/-- **Every span of the ladder points at its construct, in a file** (`span_sound` on the fragment):
+the printed form of `e` stands in the file `t` after the text `pre`; then the parser started there
+returns `e` up to spans; the spans of the result, node by node in preorder, are those between the
+offsets `offs` lists; the characters of `t` between the two offsets of a node are the printed form of
+that node; and every span starts at line 1 + (line feeds before the node's first character) and
+byte column 1 + (bytes since the last line feed before it). -/
+theorem span_sound_ladder (pre : List Char) (e : Expr) (hnf : NF e) (rest : List Char)
+    (hrest : Follows rest) (t : List Char) (ht : t = pre ++ pp 0 e ++ rest)
+    (fuel : Nat) (hfuel : fuelNeeded e ≤ fuel) :
+    ∃ e', fallback fuel ((PState.init t).adv pre.length) =
+        some ((PState.init t).adv (pre.length + (pp 0 e).length), e') ∧
+      e'.eraseSpans = e.eraseSpans ∧
+      spansOf e' = (offs 0 pre.length e).map (spanAt (PState.init t)) ∧
+      (offs 0 pre.length e).map (slice t) = (nodesOf e).map (pp 0) ∧
+      ∀ sp ∈ spansOf e', ∃ ab ∈ offs 0 pre.length e,
+        sp.line = 1 + (t.take ab.1).count '\n' ∧
+        sp.cs = 1 + bytesLen (Pos.lastLine (t.take ab.1)) :=
+  fallback_spans_in_file pre e hnf rest hrest t ht fuel hfuel
+
+/-- Non-vacuity: `a (b | <C>)... [d]` on the second line of a file is in the fragment; its eight nodes
+get the offsets of their own texts. -/
+example :
+    let e : Expr := .seq (.cons (.term "a" none 0 default)
+      (.cons (.many1 (.alt (.cons (.term "b" none 0 default) (.cons (.nonterm "C" 0 default) .nil)) default) default)
+        (.cons (.opt (.term "d" none 0 default) default) .nil))) default
+    String.ofList (pp 0 e) = "a (b | <C>)... [d]" ∧
+    offs 0 7 e = [(7, 25), (7, 8), (9, 21), (10, 17), (10, 11), (14, 17), (22, 25), (23, 24)] := by
+  decide
 
 end Complgen.Props.C13
